@@ -4,6 +4,7 @@
 package harness
 
 import (
+	"bytes"
 	"encoding/binary"
 	"encoding/json"
 	"flag"
@@ -675,6 +676,12 @@ func DoReplay(checks map[string]Check, path string, verbose bool) int {
 	if c == nil {
 		fmt.Fprintf(os.Stderr, "INFRA: unknown check %q\n", rp.Property)
 		return 2
+	}
+	// the file is indented; plans are executed (and fingerprinted) in the
+	// compact form in which they were generated
+	var compact bytes.Buffer
+	if err := json.Compact(&compact, rp.Plan); err == nil {
+		rp.Plan = compact.Bytes()
 	}
 	before := simrt.RaceErrors()
 	out := c.Exec(rp.Plan, simrt.Replay(rp.Sched, rp.Aux), true)
